@@ -851,7 +851,7 @@ def _inert(vf, node, fn, args):
 
 
 for _k in ['std::fmt::Arguments::new', 'std::fmt::Arguments::from_str', 'std::fmt::Arguments::new_const', 'std::fmt::Arguments::new_v1',
-           'core::fmt::rt::Argument::new_display', 'core::fmt::rt::Argument::new_debug', 'std::fmt::format',
+           'core::fmt::rt::Argument::new_display', 'core::fmt::rt::Argument::new_debug',
            'std::io::_print', 'std::io::_eprint', 'std::fmt::Formatter::write_fmt',
            'indicatif::MultiProgress::add', 'indicatif::MultiProgress::new', 'indicatif::ProgressBar::finish_with_message',
            'indicatif::ProgressBar::inc', 'indicatif::ProgressBar::new', 'indicatif::ProgressBar::set_message',
@@ -872,3 +872,52 @@ def h_to_string(vf, node, fn, args):
 def h_now(vf, node, fn, args):
     vf.uid += 1
     return T.sym('now#%d' % vf.uid)
+
+
+def h_fmtarg(vf, node, fn, args):
+    return T.app('fmtarg', tt(vf, args[0]))
+
+
+def h_arguments_new(vf, node, fn, args):
+    """core::fmt::Arguments::new(template bytes, &[Argument]): decode the length-prefixed template"""
+    import re as _re
+    tpl = tt(vf, args[0])
+    arr = tt(vf, args[1]) if len(args) > 1 else T.app('array')
+    fargs = [a[2][0] if T.is_app(a, 'fmtarg') else a for a in (arr[2] if T.is_app(arr, 'array') else ())]
+    m = _re.search(r'ByteStr\(\[([0-9, ]*)\]', tpl[1]) if tpl[0] == 'sym' else None
+    if not m:
+        return T.app('format', tpl, *fargs)
+    bs = [int(x) for x in m.group(1).split(',') if x.strip()]
+    out, i, ai = [], 0, 0
+    while i < len(bs):
+        b = bs[i]
+        if b == 0:
+            break
+        if b < 0x80:
+            out.append(T.sym('"' + bytes(bs[i + 1:i + 1 + b]).decode('utf-8', 'replace') + '"'))
+            i += 1 + b
+        else:
+            if b != 0xC0:
+                out.append(T.sym('fmtspec:%d' % b))
+            out.append(fargs[ai] if ai < len(fargs) else T.sym('?arg'))
+            ai += 1
+            i += 1
+    return T.app('format', *out)
+
+
+def h_format(vf, node, fn, args):
+    return tt(vf, args[0])
+
+
+def h_from_str(vf, node, fn, args):
+    return T.app('format', tt(vf, args[0]))
+
+
+TABLE['std::fmt::format'] = h_format
+TABLE['core::fmt::rt::Argument::new_display'] = h_fmtarg
+TABLE['core::fmt::rt::Argument::new_debug'] = h_fmtarg
+TABLE['std::fmt::Arguments::new'] = h_arguments_new
+TABLE['std::fmt::Arguments::from_str'] = h_from_str
+for _k in ('std::fmt::format', 'core::fmt::rt::Argument::new_display', 'core::fmt::rt::Argument::new_debug', 'std::fmt::Arguments::new', 'std::fmt::Arguments::from_str'):
+    CLASS[_k] = 'FMT'
+    TABLE[_k].lazy = False
